@@ -48,9 +48,11 @@ def llk_tag(x):
     return x
 
 
-def same(impl, model_log):
+def same(impl, model_log, f32=False):
     if isinstance(impl, str) or isinstance(model_log, str):
         return impl == model_log
+    if f32:
+        return abs(impl - model_log) <= 4.0 * float(np.spacing(np.float32(abs(model_log) + 1.0)))
     return C.close_log(impl, model_log)
 
 
@@ -58,6 +60,8 @@ def run(tier, replay=None):
     from mchap.assemble.likelihood import log_likelihood, log_likelihood_structural_change
     from mchap.jitutils import structural_change
     from mchap.calling.likelihood import log_likelihood_alleles
+    from mchap.calling.exact import genotype_likelihoods
+    from mchap.jitutils import index_as_genotype_alleles, genotype_alleles_as_index
     from mchap.pedigree.likelihood import log_likelihood_alleles_cached as ped_llk
 
     chk = C.Check(PROP, tier, MODULE, THEOREMS, RULE, assumptions=[
@@ -300,7 +304,9 @@ def run(tier, replay=None):
         haps = [G.gen_haplotype(r, n_alleles) for _ in range(n_haps)]
         ploidy = r.choice([1, 2, 4, 6])
         alleles = [r.randrange(n_haps) for _ in range(ploidy)]
-        reads, counts = G.gen_reads(r, n_alleles, r.randint(1, 7), haps=haps, zero_counts=True, style=r.choice(["encoded", "free"]))
+        # 'hard': 0/1 base calls (phred quality 0 / error rate 0), so that some genotypes are impossible for some reads
+        style_ = r.choice(["encoded", "free", "hard"])
+        reads, counts = G.gen_reads(r, n_alleles, r.randint(1, 7), haps=haps, zero_counts=style_ != "hard", style=style_)
         lines.append(" ".join(["lik.alleles"] + G.reads_tokens(reads, counts) + G.genotype_tokens(haps) + [str(a) for a in alleles]))
         meta.append((haps, alleles, reads, counts))
     ans = drv.ask(lines)
@@ -321,6 +327,29 @@ def run(tier, replay=None):
         if not same(i1, i2):
             chk.violation("pedigree and calling likelihood wrappers disagree for the same reads",
                           {**case, "calling": i1, "pedigree": i2}, "C04/alleles/wrappers")
+        # the enumeration behind FORMAT/GL (and the array path of call-exact): entry i is the likelihood of the i-th genotype over
+        # the haplotypes, stored as float32 - zero-probability base calls make the read impossible (-inf), gaps count as one
+        ploidy_ = len(alleles)
+        n_gen = math.comb(len(haps) + ploidy_ - 1, ploidy_)
+        if n_gen <= 400:
+            gls = genotype_likelihoods(reads[pos], ploidy_, harr, read_counts=counts[pos])
+            chk.count("genotype_likelihoods"); n_inf = 0
+            for gi in range(n_gen):
+                g_ = index_as_genotype_alleles(gi, ploidy_)
+                ref = float(log_likelihood_alleles(reads[pos], counts[pos], harr, g_))
+                got = float(gls[gi])
+                n_inf += ref == -math.inf
+                ok = (got == ref) if not math.isfinite(ref) else (math.isfinite(got) and abs(got - ref) <= 4.0 * float(np.spacing(np.float32(abs(ref) + 1.0))))
+                if not ok:
+                    chk.violation("genotype_likelihoods: an entry is not the read likelihood of that genotype (float32 storage allowed for)",
+                                  {**case, "genotype_index": gi, "genotype": [int(x) for x in g_], "entry": got, "log_likelihood_alleles": ref},
+                                  "C04/genotype_likelihoods/entry")
+                    break
+            if n_inf:
+                chk.count("genotype_likelihoods:with-impossible-genotypes")
+            gi0 = int(genotype_alleles_as_index(np.sort(aarr)))
+            if not same(llk_tag(float(gls[gi0])), m1, f32=True):
+                chk.disagreement("genotype_likelihoods entry != model likelihood of that genotype", {**case, "impl": float(gls[gi0]), "model": m1})
 
     # ---------------- the pedigree wrapper as the sampler uses it: one cache object for all individuals of a family
     # (different ploidies, any listing order); every value it returns must be the mixture likelihood of that
